@@ -79,6 +79,7 @@ def nftSendPre (s : State) (cls id : Str) (dst : Chain) : Except Err (Str × Boo
             match s.apps.nftTraces (cls.drop voucherPfx.length) with
             | none => .error (.app "NFT/5")
             | some p => .ok p
+          else if ClassPath.hasDelim cls then .error (.app "NFT/2")   -- native class must not contain '/'
           else .ok cls
         match full? with
         | .error e => .error e
